@@ -242,7 +242,7 @@ def _roots_of_kw(repo, f, fl, cfg, call, name, pos=None):
     return v, fl.roots(v, cfg.node_of(call))
 
 
-@rule("FUSE-PROV-1", props=["C02", "C05", "C13"], floor=10)
+@rule("FUSE-PROV-1", props=["C02", "C05", "C13", "C11"], floor=10, default=["C02", "C05", "C13"])
 def fuse_prov(ctx: Ctx) -> None:
     """provenance of every value-relevant field of a fused operation: task set, target and
     write proxies from the successor; read proxies include every predecessor's; source names in
@@ -252,7 +252,7 @@ def fuse_prov(ctx: Ctx) -> None:
     CP = f"{A.RT_TYPES}.CubedPipeline"
     BS = f"{A.PBW}.BlockwiseSpec"
 
-    def field_from(f: Def, succ: str, call: ast.Call, name: str, suffixes: tuple, pos=None, label=None):
+    def field_from(f: Def, succ: str, call: ast.Call, name: str, suffixes: tuple, pos=None, label=None, props=None):
         fl, cfg = flow_of(repo, f), cfg_of(f)
         v, rs = _roots_of_kw(repo, f, fl, cfg, call, name, pos)
         ok = v is not None and bool(rs) and all(any(r == f"param:{succ}{s}" for s in suffixes) for r in rs)
@@ -263,6 +263,7 @@ def fuse_prov(ctx: Ctx) -> None:
             f"{f.name}: `{label or name}` of the fused operation must come from the successor operation ({succ})"
             + ("" if ok else f" — origin {sorted(rs)[:2] if rs else 'missing'}"),
             sel=f"prov:{f.name}:{label or name}",
+            props=props,
         )
 
     # fuse(op1, op2): op2 is the successor
@@ -276,6 +277,9 @@ def fuse_prov(ctx: Ctx) -> None:
     field_from(f, succ, po[0], "num_tasks", (".num_tasks",))
     field_from(f, succ, cp[0], "mappable", (".pipeline.mappable",), pos=2)
     field_from(f, succ, bs[0], "writes_map", (".pipeline.config.writes_map",), pos=5)
+    # the "must be written: never fuse into a consumer" mark of the successor (set by the
+    # store operation) survives fusion with its predecessors
+    field_from(f, succ, po[0], "fusable_with_successors", (".fusable_with_successors",), label="fusable_with_successors", props=["C02", "C11"])
     fl, cfg = flow_of(repo, f), cfg_of(f)
     v, rs = _roots_of_kw(repo, f, fl, cfg, bs[0], "reads_map", 4)
     ok = bool(rs) and all(r == f"param:{pred}.pipeline.config.reads_map" for r in rs)
@@ -328,6 +332,7 @@ def fuse_prov(ctx: Ctx) -> None:
     field_from(f, succ, po[0], "target_array", (".target_array",))
     field_from(f, succ, po[0], "num_tasks", (".num_tasks",))
     field_from(f, succ, cp[0], "mappable", (".pipeline.mappable",), pos=2)
+    field_from(f, succ, po[0], "fusable_with_successors", (".fusable_with_successors",), label="fusable_with_successors", props=["C02", "C11"])
     fl, cfg = flow_of(repo, f), cfg_of(f)
     # source names: loop over enumerate(preds): append successor's name at i for None, extend p's
     v = kwarg(po[0], "source_array_names")
